@@ -6,8 +6,8 @@ package main
 
 import (
 	"fmt"
-	"os"
 	"go/types"
+	"os"
 	"strings"
 	"sync"
 
